@@ -6,6 +6,14 @@ HERE = os.path.dirname(os.path.abspath(__file__))
 TECH = "deterministic simulation with fault injection: seeded runs of the real library on a simulated block device (SimDisk); "
 
 CHECKS = {
+ "C06": dict(level="exploration", design="§5 C06",
+   text="Seeded workspace trees (depth 0..8, up to 300 entries per directory, sizes 0/<block/exact multiples/hundreds of KiB, names colliding after 8.3 truncation, mixed case, long names, symlinks under Rock Ridge) are finalized with {plain, Rock Ridge, Joliet, both} x block size 2048/4096/8192 x start 0 or 1 MiB inside a larger noise-filled simulated device with the write guard armed; the image is read back with iso9660.Read (names exact under Rock Ridge/Joliet; plain mode matched by content with the documented 8.3 mapping for non-colliding names) and by an independent primary-volume-descriptor walker on the raw device bytes (same files, extents inside the written image, pairwise disjoint, both-endian fields agree).",
+   note="No schedule/clock/fault dimension exists for this property; the simulator contributes placement at start != 0, the write-range guard and raw device bytes. Seeded sampling; numbering inside a collision group is not pinned.",
+   technique=TECH+"seeded tree generation vs reference tree + independent ISO9660 walker on the simulated device (placement/write-extent seam only)"),
+ "C07": dict(level="exploration", design="§5 C07",
+   text="Seeded workspace trees (empty dirs, hundreds of entries per directory, sizes 0/<block/k*block/k*block+tail, zero runs, compressible/incompressible data, symlinks incl. dangling and long targets) are finalized with seeded option sets (none/gzip/xz/lz4/zstd, fragments on/off, NoCompressData/Fragments/Inodes, block size 4 KiB..1 MiB, start 0/4 KiB/1 MiB) on the simulated device and read back twice with different read-cache sizes (0, one block, three blocks, default) so that the miss path runs; listings, contents and link targets must equal the workspace for every option set, the superblock's bytes-used must equal the end of what the device saw written (write log) and the table pointers must be ordered inside it.",
+   note="No schedule/clock/fault dimension exists for this property; the simulator contributes placement, the write log (size oracle), the write guard and knob randomisation incl. cache size. Seeded sampling.",
+   technique=TECH+"seeded tree/option/knob generation vs reference tree, device write log as size oracle (placement and cache-size knobs)"),
  "C16": dict(level="exploration", design="§5 C16",
    text="A seeded tree is offered as source by a host directory, by fat32/ext4/iso9660 Rock Ridge/squashfs images on simulated devices, or by an in-memory fs.FS whose files return legal short reads (1-byte and odd pieces, (n,EOF), one (0,nil)); CopyFileSystem copies it into fat12/16/32 and ext4 volumes; when it returns nil the reopened destination is compared with the tree by an independent walker (no excluded names copied, nothing missing or extra, contents equal). CompareFS must return nil on the faithful copy and an error for each single-point mutation presented through overlay filesystems (byte changed at first/middle/last position, content one byte longer/shorter, size +-1, entry missing, extra file, extra directory, file became directory) and for one stored data byte flipped on the destination device; thorough adds a file above the 64 MiB streaming threshold from a zero-generating source.",
    note="Seeded sampling over trees and pairings. Names are legal for the destination; dot-file naming on ISO sources is left to C06. A copy that returns an error is not judged.",
